@@ -159,3 +159,42 @@ func VerifHarness_C02_verify_commit_total() {
 		vAssert(np == n && good*3 > int64(n)*2, "verified-commit-has-two-thirds-valid")
 	}
 }
+
+// VerifyCommit on its own (the fast-sync path calls it without Commit.ValidateBasic): a commit
+// whose slots are each empty, genuine, badly signed, for a foreign height / type / block / round,
+// or a copy of validator 0's vote is accepted only if it has one slot per validator, all its
+// precommits are from ONE round and genuine precommits for this block carry more than 2/3 of the power.
+func VerifHarness_C02_verify_commit_sound() {
+	n := vParam("N", 3)
+	vals := vValSet(n, 1)
+	bid := types.BlockID{Hash: []byte{0xA}, PartsHeader: types.PartSetHeader{Total: 1, Hash: []byte{0xA}}}
+	other := types.BlockID{Hash: []byte{0x66}, PartsHeader: types.PartSetHeader{Total: 1, Hash: []byte{0x66}}}
+	st := &sm.State{LastBlockHeight: 7, LastBlockID: bid}
+	c := &types.Commit{BlockID: bid}
+	np := vNondetLen("n", n-1, n+1)
+	c.Precommits = make([]*types.Vote, np)
+	power, rounds0, rounds1 := 0, 0, 0
+	for i := 0; i < np; i++ {
+		v, counts := vC02Slot(i, st, other)
+		c.Precommits[i] = v
+		if v != nil && v.Round == 0 {
+			rounds0++
+		}
+		if v != nil && v.Round == 1 {
+			rounds1++
+		}
+		if counts && i < n {
+			power++
+		}
+	}
+	err := vals.VerifyCommit(vChain, bid, 7, c) // a panic is a finding
+	if err == nil {
+		vReach("commit-verified")
+		vAssert(np == n, "verified-commit-has-one-slot-per-validator")
+		vAssert(rounds0 == 0 || rounds1 == 0, "verified-commit-is-from-a-single-round")
+		vAssert(power*3 > n*2, "verified-commit-has-two-thirds-genuine-precommits-for-the-block")
+	} else {
+		vReach("commit-rejected")
+		vAssert(!(np == n && power == n && rounds1 == 0), "genuine-commit-verifies")
+	}
+}
